@@ -138,6 +138,32 @@ func (h Header) Int(key string) int {
 	return int(n)
 }
 
+// 消息体的最大长度；超过的 Content-Length 直接拒绝而不是按其分配缓冲
+const maxBodyLength = 1024 * 1024
+
+// contentLength 返回 Content-Length；数值超过上限（包括溢出）时返回错误，
+// 无法解析的值和以前一样按没有消息体处理
+func (h Header) contentLength() (int, error) {
+	fv := h.get(FieldContentLength)
+	if len(fv) < 1 {
+		return 0, nil
+	}
+	n, err := strconv.ParseInt(fv, 10, 64)
+	if err != nil {
+		if errors.Is(err, strconv.ErrRange) && !strings.HasPrefix(fv, "-") {
+			return 0, &badStringError{"Content-Length too large", fv}
+		}
+		return 0, nil
+	}
+	if n < 0 {
+		return 0, nil
+	}
+	if n > maxBodyLength {
+		return 0, &badStringError{"Content-Length too large", fv}
+	}
+	return int(n), nil
+}
+
 // Setf 格式化的设置头部域
 func (h Header) Setf(key, format string, a ...interface{}) string {
 	value := fmt.Sprintf(format, a...)
